@@ -84,6 +84,63 @@ def spec2(layers, h):
     return "base %d" % h
 
 
+def py_layers(R):
+    """The Python binding's callback layers (python/addrxlat.c): build the extension from the working tree and run
+    harness/py_layers.py.  Returns (failure or None, number of observations, distinct non-trivial)."""
+    import os, re, shutil, subprocess, sys, sysconfig, collections
+    R.build_lib()
+    tree = R.path("lib", "tree")
+    d = R.path("pyl")
+    os.makedirs(d, exist_ok=True)
+    srcs = [os.path.join(tree, "src/addrxlat", f) for f in sorted(os.listdir(os.path.join(tree, "src/addrxlat")))
+            if f.endswith(".c") and not f.startswith("test-")]
+    cmd = ["gcc", "-shared", "-fPIC", "-O1", "-g", "-w", "-DHAVE_CONFIG_H", "-I" + tree, "-I" + os.path.join(tree, "include"),
+           "-I" + os.path.join(tree, "src"), "-I" + os.path.join(tree, "src/addrxlat"), "-I" + sysconfig.get_paths()["include"],
+           os.path.join(kdf.REPO, "python/addrxlat.c")] + srcs + ["-o", os.path.join(d, "_addrxlat.so")]
+    r = subprocess.run(cmd, capture_output=True, text=True)
+    if r.returncode:
+        raise kdf.CheckBroken("python/addrxlat.c does not compile from the working tree:\n" + r.stderr[-2000:])
+    if os.path.exists(os.path.join(d, "addrxlat")):
+        shutil.rmtree(os.path.join(d, "addrxlat"))
+    shutil.copytree(os.path.join(kdf.REPO, "python/addrxlat"), os.path.join(d, "addrxlat"), ignore=shutil.ignore_patterns("Makefile*"))
+    r = subprocess.run([sys.executable, os.path.join(kdf.VERIF, "harness/py_layers.py")], capture_output=True, text=True,
+                       env=dict(os.environ, PYTHONPATH=d), timeout=300)
+    obs = collections.defaultdict(dict)
+    nobs = 0
+    for l in r.stdout.split("\n"):
+        m = re.match(r"(again )?(\S+) (\S+) (\d) -> (.*)", l.strip())
+        if m:
+            nobs += 1
+            obs[(m.group(2), m.group(3))][(int(m.group(4)), bool(m.group(1)))] = m.group(5)
+    if r.returncode != 0 or nobs < 250:
+        return ("python layer script stopped (rc=%s) after %d observations: %s" % (r.returncode, nobs, r.stderr.strip()[-600:]),
+                dict(stream="py-layers", stdout_tail=r.stdout[-1500:], stderr=r.stderr[-1500:])), nobs, 0
+    nontriv = 0
+    for (hook, key), v in sorted(obs.items()):
+        if hook in ("after-del",):
+            if v.get((0, False), "").startswith("val ") is False:
+                return ("bottom layer after the upper layers were removed: %s" % v, dict(stream="py-layers", hook=hook, outcomes=str(v))), nobs, nontriv
+            continue
+        kind = key.split(":")[0] if ":" in key else None
+        if hook == "get_page":
+            kind = ("val", "zero", "big", "none", "myerr", "key", "nodata", "notimpl", "str")[(int(key, 16) >> 12) % 9]
+        # a value or a foreign exception must come through unchanged from the bottom layer's own method; addrxlat's own exceptions,
+        # None and unconvertible results are turned into a status by the first layer: compared from one layer upwards
+        first = 0 if (hook in ("read_caps", "layer-is-new") or kind in ("val", "zero", "big", "myerr", "key")) else 1
+        want = v.get((first, False))
+        for n in range(first, 4):
+            nontriv += n > 0
+            if v.get((n, False)) != want:
+                return ("Python binding: hook %s for %s through %d pass-through layer(s) gives '%s'; %s gives '%s'" %
+                        (hook, key, n, v.get((n, False)), "the bottom layer's own method" if first == 0 else "one pass-through layer", want),
+                        dict(stream="py-layers", hook=hook, key=key, outcomes={str(k): x for k, x in v.items()},
+                             replay="PYTHONPATH=<dir with _addrxlat.so built from python/addrxlat.c> python3 harness/py_layers.py")), nobs, nontriv
+        if (1, True) in v and v[(1, True)] != v.get((1, False)):
+            return ("Python binding: hook %s for %s through one layer gives '%s' after other layers were created and removed, '%s' before" %
+                    (hook, key, v[(1, True)], v.get((1, False))), dict(stream="py-layers", hook=hook, key=key)), nobs, nontriv
+    return None, nobs, nontriv
+
+
 def run(R):
     facts, changed = R.extract()
     proof = R.prove(["Kdf.Props.C17"], THEOREMS)
@@ -120,6 +177,9 @@ def run(R):
                 nontrivial.add((tuple(layers), h))
             if got != want:
                 fails.append((len(s) + ndel, si, oi, h, got, want))
+    pyfail, pyobs, pynontriv = py_layers(R)
+    if pyfail and not fails:
+        R.violation(pyfail[0], dict(pyfail[1], broken_theorems=proof["broken"]))
     if fails:
         fails.sort()
         d, si, oi, h, got, want = fails[0]
@@ -148,7 +208,9 @@ def run(R):
                     "followed by the same stack without its top layer, all 7 hooks; non-trivial = distinct (stack,hook) "
                     "whose top layer leaves the hook untouched",
                traces_validated_against_impl=len(impl), correspondence_first_diff=mism,
-               case_kinds=kinds,
+               case_kinds=kinds, python_layer_observations=pyobs, python_layer_nontrivial=pynontriv,
                samples=[dict(stack=stacks[i], ops=scr[i][:12]) for i in (1, len(stacks) // 2, len(stacks) - 2)])
     return "proof", cov, ["an implementation's behaviour is a function of (its identity, the record it is called with)",
-                          "C indirect calls behave as modelled; stack overflow of the real code is reported as 'diverge'"]
+                          "C indirect calls behave as modelled; stack overflow of the real code is reported as 'diverge'",
+                          "Python binding (python/addrxlat.c): not modelled; its layers are compared with each other and with the bottom "
+                          "layer's own methods (7 hooks x 9 outcome kinds x 0..3 layers) on the implementation only"]
